@@ -150,12 +150,14 @@ def sk_rank(tier, quick=3, thorough=4):
         "flodym.flodym_arrays.FlodymArray.apply",
         "flodym.flodym_arrays.FlodymArray.__pow__",
     ],
-    skeletons=sk_rank,
-    note="x**c: the real power function is an uninterpreted symbol pow(base, exponent)",
+    skeletons=lambda tier: sk_rank(tier) + [{"x": ALPHA[:k], "cls": c} for k in (1, 2) for c in ("Parameter", "StockArray")],
+    note="x**c: the real power function is an uninterpreted symbol pow(base, exponent); cls: the operand is an instance of a subclass (a parameter, a stock array) -- results own their dimension set and values all the same",
 )
 def u_scalar(W, sk):
+    import flodym.flodym_arrays as _fa
+
     D = mk_dims(W, sk["x"])
-    x = W.array("x", [D[l] for l in sk["x"]], int_ok=True)
+    x = W.array("x", [D[l] for l in sk["x"]], int_ok=True, cls=getattr(_fa, sk["cls"]) if sk.get("cls") else None)
     c = W.number("c")
     X = SL.lab(W, x)
     snaps = SL.snapshot(W, [x])
@@ -291,6 +293,10 @@ def sk_sum_to(tier):
                 if style == "mixed" and len(K) < 2:
                     continue
                 out.append({"x": x, "K": K, "style": style})
+            if K and k <= 3:
+                # Dimension objects that are not the array's own: same letter and name, another item list (the time
+                # or region dimension of another model) -- they name the array's dimension, nothing more
+                out.append({"x": x, "K": K, "style": "foreign_object"})
     return out
 
 
@@ -313,9 +319,14 @@ def u_sum_to(W, sk):
     x = W.array("x", [D[l] for l in sk["x"]], int_ok=True)
     X = SL.lab(W, x)
     snaps = SL.snapshot(W, [x])
-    keys = naming([D[l] for l in sk["K"]], sk["style"])
+    if sk["style"] == "foreign_object":
+        keys = tuple(W.dim(l, name=D[l].name, tag=f"{l}_foreign") for l in sk["K"])
+    else:
+        keys = naming([D[l] for l in sk["K"]], sk["style"])
     exp = SL.marg(X, sk["K"])
     out = W.call(lambda: x.sum_to(keys))
+    if sk["style"] == "foreign_object" and out.kind == "return":
+        W.prove("sum_to(foreign Dimension objects).result_has_the_arrays_own_dimensions", len(out.value.dims.dim_list) == len(sk["K"]) and all(a is b or (a.letter == b.letter and bool(a.items == b.items)) for a, b in zip(out.value.dims.dim_list, [D[l] for l in sk["K"]])), detail=str(out.value.dims.letters))
     SL.check_same_array(W, "sum_to", out, exp, fresh_from=[x], own_dims_from=[x], require_fresh=False)
     out = W.call(lambda: x.sum_values_to(keys))
     SL.check_raises if False else None
@@ -508,6 +519,7 @@ def sk_cumsum(tier):
         for j in range(k):
             for inplace in (False, True):
                 out.append({"x": ALPHA[:k], "axis": j, "inplace": inplace})
+    out += [{"x": "ab", "axis": 1, "inplace": False, "cls": c} for c in ("Parameter", "StockArray")]
     return out
 
 
@@ -518,8 +530,10 @@ def sk_cumsum(tier):
     skeletons=sk_cumsum,
 )
 def u_cumsum(W, sk):
+    import flodym.flodym_arrays as _fa
+
     D = mk_dims(W, sk["x"], numeric_ok=True)
-    x = W.array("x", [D[l] for l in sk["x"]], int_ok=True)
+    x = W.array("x", [D[l] for l in sk["x"]], int_ok=True, cls=getattr(_fa, sk["cls"]) if sk.get("cls") else None)
     X = SL.lab(W, x)
     fz = SL.Lab(W, X.letters, X.dims, (lambda vals, L: (lambda asg: W.elem(vals, tuple(asg[l] for l in L))))(x.values.copy(), X.letters))
     l = sk["x"][sk["axis"]]
